@@ -11,14 +11,11 @@ package server
 
 import (
 	"fmt"
-	"net"
 	"os"
 	"sort"
 	"strings"
-	"sync"
 	"sync/atomic"
 	"testing"
-	"testing/synctest"
 	"time"
 
 	"github.com/osrg/gobgp/v4/internal/verif/vr"
@@ -47,162 +44,12 @@ var c01pScripts = [][]simEvent{
 		{Op: "ann", Bot: 0, A: 0, B: 1}},
 }
 
-type c01pResult struct {
-	records  int
-	reached  bool
-	parkedAt string
-	skipped  bool
-	viol     []simViolation
-	pn       string
-	applied  int
-	early    bool
-}
+type c01pResult = simParkScriptResult
 
-func c01pRun(t *testing.T, c c01pCase) (res c01pResult) {
-	sc := simScenarios["routes"]("cfg=" + c.Cfg + ";oracle=both;noapi").(*simRoutesScenario)
-	synctest.Test(t, func(t *testing.T) {
-		park := &simPark{want: c.Park, reached: make(chan struct{}), release: make(chan struct{})}
-		armed, skip := false, 0
-		var hmu sync.Mutex
-		w := &simWorld{t: t}
-		gate := simParkHandler{p: park, armed: &armed, mu: &hmu, skip: &skip}
-		gate.locks = func() bool {
-			for _, p := range w.everPeer {
-				if !p.fsm.lock.TryLock() {
-					return true
-				}
-				p.fsm.lock.Unlock()
-			}
-			if !w.s.shared.mu.TryLock() {
-				return true
-			}
-			w.s.shared.mu.Unlock()
-			return false
-		}
-		w.logHandler = gate
-		w.wrapConn = func(sc *simConn) net.Conn { return &simParkConn{simConn: sc, h: gate} }
-		released := false
-		defer func() {
-			if r := recover(); r != nil {
-				res.pn = fmt.Sprint(r)
-			}
-			if !released {
-				park.freeze()
-				released = true
-				close(park.release)
-			}
-			func() {
-				defer func() { recover() }()
-				if w.s != nil {
-					w.stop(true)
-				}
-			}()
-		}()
-		sc.Setup(w)
-		hmu.Lock()
-		armed = true
-		hmu.Unlock()
-		parked := func() bool {
-			select {
-			case <-park.reached:
-				return true
-			default:
-				return false
-			}
-		}
-		enabled := func(e simEvent) bool {
-			for _, x := range sc.Enabled(w) {
-				if x == e {
-					return true
-				}
-			}
-			return false
-		}
-		release := func() {
-			if released {
-				return
-			}
-			park.freeze()
-			hmu.Lock()
-			armed = false
-			hmu.Unlock()
-			released = true
-			close(park.release)
-		}
-		script := c01pScripts[c.Script]
-		botUp := map[int]bool{0: true, 1: true, 2: true}
-		i := 0
-		apply := func() {
-			e := script[i]
-			i++
-			ok := enabled(e)
-			// the bot's own idea of its session: an "up" whose handshake did not complete (the FSM goroutine is the
-			// one being held) leaves the bot without a session, whatever state the daemon still reports
-			if (e.Op == "ann" || e.Op == "wd" || e.Op == "down") && !botUp[e.Bot] {
-				ok = false
-			}
-			if os.Getenv("VERIF_C01P_DEBUG") != "" {
-				fmt.Fprintf(os.Stderr, "C01P t=%v event %v enabled=%v parked=%v stats=%v\n", w.now(), e, ok, parked(), w.stats)
-			}
-			if ok {
-				failed := w.stats["up-did-not-establish"]
-				// an event that goes through the management channel cannot complete while the server loop is the
-				// goroutine being held: after 20 s of virtual time the held goroutine is released early
-				applied := make(chan any, 1)
-				go func() {
-					defer func() { applied <- recover() }()
-					sc.Apply(w, e)
-				}()
-				tm := time.NewTimer(20 * time.Second)
-				select {
-				case pn := <-applied:
-					tm.Stop()
-					if pn != nil {
-						panic(pn)
-					}
-				case <-tm.C:
-					release()
-					res.early = true
-					if pn := <-applied; pn != nil {
-						panic(pn)
-					}
-				}
-				res.applied++
-				switch e.Op {
-				case "down", "delpeer":
-					botUp[e.Bot] = false
-				case "up":
-					botUp[e.Bot] = w.stats["up-did-not-establish"] == failed
-					if !botUp[e.Bot] {
-						w.bots[e.Bot].disconnect()
-						w.settle()
-					}
-				}
-			}
-		}
-		for i < len(script) && !parked() {
-			apply()
-		}
-		res.reached = parked()
-		for k := 0; res.reached && k < c.N && i < len(script); k++ {
-			apply()
-		}
-		release()
-		synctest.Wait()
-		w.advance(2 * time.Second)
-		sc.foldNew(w)
-		for i < len(script) {
-			apply()
-		}
-		w.advance(2 * time.Second)
-		sc.foldNew(w)
-		sc.Check(w, nil)
-		res.viol = w.viol
-		res.records = park.n
-		res.parkedAt = park.parkedAt
-		res.skipped = skip > 0
-	})
-	return res
+func c01pRun(t *testing.T, c c01pCase) c01pResult {
+	return simParkScript(t, func() simParkScenario {
+		return simScenarios["routes"]("cfg=" + c.Cfg + ";oracle=both;noapi").(*simRoutesScenario)
+	}, c01pScripts[c.Script], c.Park, c.N)
 }
 
 func c01pJudge(r *vr.Report, t *testing.T, c c01pCase) c01pResult {
